@@ -195,12 +195,25 @@ class Resolver:
             # cast(T, x) is transparent
             if isinstance(f, ast.Name) and f.id == "cast" and len(e.args) == 2:
                 return T(e.args[1])
-            return (
-                "call",
-                T(f),
-                tuple(T(a.value) if isinstance(a, ast.Starred) else T(a) for a in e.args),
-                tuple((k.arg, T(k.value)) for k in e.keywords),
-            )
+            ft = T(f)
+            args = []
+            for a in e.args:
+                if isinstance(a, ast.Starred):
+                    st_ = T(a.value)
+                    if st_[0] in ("tuple", "list"):
+                        args.extend(st_[1])  # f(*(a, b), c) == f(a, b, c)
+                    else:
+                        args.append(st_)
+                else:
+                    args.append(T(a))
+            kws = [(k.arg, T(k.value)) for k in e.keywords]
+            callee = self._callee(f, ft)
+            if callee is not None:
+                args, kws = _positional(callee, args, kws, bound=not isinstance(f, ast.Name) or callee.name == "__init__")
+                inl = self._inline(callee, f, args, kws, _visiting, d)
+                if inl is not None:
+                    return inl
+            return ("call", ft, tuple(args), tuple(kws))
         if isinstance(e, ast.Subscript):
             if isinstance(e.slice, ast.Slice):
                 return ("op", "slice", (T(e.value),))
@@ -316,6 +329,72 @@ class Resolver:
             return alts[0]
         return ("phi", tuple(alts))
 
+    # ------------------------------------------------------------------ callee resolution (for normalisation only)
+    def _callee(self, f, ft):
+        """The repo function a call resolves to when that is unambiguous, else None."""
+        m = self.m
+        if isinstance(f, ast.Name):
+            if f.id in m.classes:
+                return m.lookup(f.id, "__init__")
+            g = m.module_funcs.get(self.fn.module, {}).get(f.id)
+            if g is not None:
+                return g
+            cands = [x for x in m.by_name.get(f.id, []) if x.cls is None and x.parent is None]
+            return cands[0] if len(cands) == 1 else None
+        if isinstance(f, ast.Attribute):
+            if self.selfname and isinstance(f.value, ast.Name) and f.value.id == self.selfname and self.fn.cls:
+                return m.lookup(self.fn.cls, f.attr)
+            if isinstance(f.value, ast.Name) and f.value.id in m.classes:
+                return m.lookup(f.value.id, f.attr)
+            cands = {id(x): x for x in m.by_name.get(f.attr, []) if x.is_method}
+            if len(cands) == 1:
+                return next(iter(cands.values()))
+            if len(cands) > 1:
+                # several classes define it: usable only when they agree on the parameter list
+                sigs = {tuple(x.params[1:]) for x in cands.values()}
+                if len(sigs) == 1:
+                    return next(iter(cands.values()))
+        return None
+
+    def _inline(self, callee, f, args, kws, visiting, depth):
+        """A call of a helper that did not exist when the rules were written is transparent: the
+        helper's return expression with the arguments substituted (phi over several returns)."""
+        from .anchors import KNOWN_FUNCTIONS
+
+        if callee.name in KNOWN_FUNCTIONS or callee.name.startswith("__") or depth > 6 or kws:
+            return None
+        if callee.qual == self.fn.qual or ("inl", callee.qual) in visiting:
+            return None
+        params = list(callee.params)
+        same_self = False
+        if callee.is_method and not callee.is_staticmethod and params:
+            # only helpers on the same object (self.helper(...)) keep the meaning of field terms
+            if not (isinstance(f, ast.Attribute) and isinstance(f.value, ast.Name) and f.value.id == self.selfname and not callee.is_classmethod):
+                return None
+            params = params[1:]
+            same_self = True
+        if len(args) > len(params):
+            return None
+        rets = [n for n in own_statements(callee.node) if isinstance(n, ast.Return)]
+        if not rets or len(own_statements(callee.node)) > 40:
+            return None
+        cres = Resolver(self.m, callee, flow=True)
+        binding = {("param", callee.params.index(p), p): a for p, a in zip(params, args)}
+        alts = []
+        for r in rets:
+            t = cres.term(r.value) if r.value is not None else ("const", None)
+            t = _subst(t, binding)
+            for a in alternatives(t):
+                if a not in alts:
+                    alts.append(a)
+        if not alts:
+            return None
+        # parameters left unbound (defaults) make the expansion unreliable
+        left = {x for a in alts for x in walk(a) if isinstance(x, tuple) and x and x[0] == "param" and x in {("param", callee.params.index(p), p) for p in params[len(args):]}}
+        if left:
+            return None
+        return alts[0] if len(alts) == 1 else ("phi", tuple(alts))
+
     def _module_literal(self, name):
         """A module-level constant bound once to a literal (number, string, tuple/list of such)."""
         cache = getattr(self.m, "_module_literals", None)
@@ -370,6 +449,48 @@ def field_stores(model, cls, attr):
                         if isinstance(x, ast.Attribute) and x.attr == attr and isinstance(x.value, ast.Name) and fn.params and x.value.id == fn.params[0]:
                             out.append((fn, v, n))
     return out
+
+
+def _positional(callee, args, kws, bound=True):
+    """Fold keyword arguments into positional ones following the callee's parameter order (as long
+    as every earlier parameter is given)."""
+    params = list(callee.params)
+    if callee.is_method and not callee.is_staticmethod and bound and params:
+        params = params[1:]
+    args = list(args)
+    kw = dict(kws)
+    if len(kw) != len(kws):
+        return args, kws
+    i = len(args)
+    while i < len(params) and params[i] in kw:
+        args.append(kw.pop(params[i]))
+        i += 1
+    return args, [(k, v) for k, v in kws if k in kw]
+
+
+def _subst(t, binding):
+    if not isinstance(t, tuple) or not t:
+        return t
+    if t in binding:
+        return binding[t]
+    h = t[0]
+    if h in ("const", "param", "self", "field", "name", "lambda", "cyc", "expr", "localdef", "exc", "deep"):
+        return t
+    if h in ("attr",):
+        return (h, _subst(t[1], binding), t[2])
+    if h in ("elem", "outer"):
+        return (h, _subst(t[1], binding))
+    if h == "call":
+        return (h, _subst(t[1], binding), tuple(_subst(a, binding) for a in t[2]), tuple((k, _subst(v, binding)) for k, v in t[3]))
+    if h == "sub":
+        return (h, _subst(t[1], binding), _subst(t[2], binding))
+    if h in ("tuple", "list", "phi"):
+        return (h, tuple(_subst(a, binding) for a in t[1]))
+    if h == "op":
+        return (h, t[1], tuple(_subst(a, binding) for a in t[2]))
+    if h == "gen":
+        return (h, _subst(t[1], binding), tuple(_subst(a, binding) for a in t[2]))
+    return t
 
 
 # ---------------------------------------------------------------------- term utilities
